@@ -2,7 +2,10 @@
  *
  * ops (one observation line per op; Driver/C17.lean answers the same script):
  *   screen W H F            F: 8m (colour-mapped 8 bpp) | 8 | 16 | 24 | 32   -> ok
- *   client I NFS [ENC [cr]] connect+handshake, SetEncodings [ENC (+CopyRect if `cr`) (+NewFBSize if NFS=1)], ENC: raw (default) |
+ *   cursor                  (before the first client) give the screen a visible 7x7 cursor at (0,0): clients without
+ *                           the `shape` flag get it painted into their updates (soft cursor)      -> ok
+ *   client I NFS [ENC [cr] [shape]]  connect+handshake, SetEncodings [ENC (+CopyRect if `cr`) (+RichCursor if `shape`)
+ *                           (+NewFBSize if NFS=1)], ENC: raw (default) |
  *                           corre | zlib | ultra (all decoded here; the number of rectangles announced in
  *                           every FramebufferUpdate header must be the number that follows)        -> ok
  *   newfb W H SEED          rfbNewFramebuffer: a new buffer of W x H (same pixel format) with pseudo-random
@@ -85,6 +88,7 @@ typedef struct {
   char badmsg[200];
   int enc;               /* preferred encoding asked for: 0 raw, 4 CoRRE, 6 Zlib, 9 Ultra */
   int cr;                /* CopyRect announced */
+  int shape;             /* RichCursor announced (otherwise the server paints the cursor) */
   z_stream zs; int zinit;
 } hcl;
 static hcl cls[MAXC];
@@ -159,6 +163,7 @@ static long rect_payload(const unsigned char *q, size_t avail, unsigned w, unsig
   if (enc == 0) return (long)w * ht * BPP;
   if (enc == -223) return 0;
   if (enc == 1) return 4;
+  if (enc == -239) return (long)w * ht * BPP + (long)((w + 7) / 8) * ht;   /* RichCursor: pixels + mask */
   if (enc == 4) { if (avail < 4) return -1; return 4 + BPP + (long)rd32(q) * (BPP + 4); }
   if (enc == 6 || enc == 9) { if (avail < 4) return -1; return 4 + (long)rd32(q); }
   return -2;
@@ -244,7 +249,7 @@ static int parse(hcl *h) {
           w = rd16(p + o + 4); ht = rd16(p + o + 6); enc = (long)(int32_t)rd32(p + o + 8); o += 12;
           sz = rect_payload(p + o, n - o, w, ht, enc);
           if (sz == -1) return 0;
-          if (sz == -2 || (enc != 0 && enc != -223 && enc != h->enc && !(enc == 1 && h->cr))) {
+          if (sz == -2 || (enc != 0 && enc != -223 && enc != h->enc && !(enc == 1 && h->cr) && !(enc == -239 && h->shape))) {
             oracle_fail(h, "unexpected encoding %ld in rectangle %ld: stream out of step or not negotiated", enc, (long)i); return -1; }
           if (n < o + (size_t)sz) return 0;
           o += (size_t)sz;
@@ -256,6 +261,7 @@ static int parse(hcl *h) {
         off += 12;
         sz = rect_payload(p + off, n - off, w, ht, enc);
         if (enc == -223) { h->gotnfs = 1; h->nfsw = w; h->nfsh = ht; resize_pic(h, w, ht); continue; }
+        if (enc == -239) { off += (size_t)sz; continue; }            /* cursor shape: not part of the picture */
         if (enc != 1 && h->nrect < MAXR) { int *r = h->rect[h->nrect++]; r[0] = x; r[1] = y; r[2] = w; r[3] = ht; }
         if (w == 0 || ht == 0 || (int)(x + w) > h->pw || (int)(y + ht) > h->ph) {
           if (!h->bad) snprintf(h->badmsg, sizeof h->badmsg, "rect %u,%u,%u,%u not a non-empty rectangle inside told size %dx%d", x, y, w, ht, h->pw, h->ph);
@@ -363,23 +369,28 @@ int main(void) {
       }
       puts("ok");
     } else if (!scr) { puts("bad-op");
-    } else if (!strcmp(tok[0], "client") && (n == 3 || n == 4 || (n == 5 && !strcmp(tok[4], "cr")))) {
-      int i = atoi(tok[1]); hcl *h; unsigned char m[24]; int k = 0, ne, enc = 0, cr = n == 5;
+    } else if (!strcmp(tok[0], "client") && n >= 3 && n <= 6) {
+      int i = atoi(tok[1]); hcl *h; unsigned char m[32]; int k = 0, ne, enc = 0, cr = 0, shape = 0, f, okf = 1;
       if (n >= 4) {
         if (!strcmp(tok[3], "raw")) enc = 0; else if (!strcmp(tok[3], "corre")) enc = 4;
         else if (!strcmp(tok[3], "zlib")) enc = 6; else if (!strcmp(tok[3], "ultra")) enc = 9;
         else { puts("bad-op"); continue; }
       }
+      for (f = 4; f < n; f++) {
+        if (!strcmp(tok[f], "cr") && !cr) cr = 1; else if (!strcmp(tok[f], "shape") && !shape) shape = 1; else okf = 0;
+      }
+      if (!okf) { puts("bad-op"); continue; }
       if (i < 0 || i >= MAXC || cls[i].used) { puts("bad-op"); continue; }
-      h = &cls[i]; memset(h, 0, sizeof *h); h->used = 1; h->nfs = atoi(tok[2]) ? 1 : 0; h->enc = enc; h->cr = cr;
+      h = &cls[i]; memset(h, 0, sizeof *h); h->used = 1; h->nfs = atoi(tok[2]) ? 1 : 0; h->enc = enc; h->cr = cr; h->shape = shape;
       vh_connect_pre(scr, &h->c, "RFB 003.008\n", 12);
       if (!h->c.cl || vh_handshake_none(scr, &h->c, 1) != 0) { puts("hs-failed"); continue; }
       h->live = 1;
       /* ServerInit consumed by vh_handshake_none (out reset). SetEncodings */
-      ne = 1 + (h->nfs ? 1 : 0) + (cr ? 1 : 0);
+      ne = 1 + (h->nfs ? 1 : 0) + (cr ? 1 : 0) + (shape ? 1 : 0);
       m[k++] = 2; m[k++] = 0; m[k++] = 0; m[k++] = (unsigned char)ne;
       m[k++] = 0; m[k++] = 0; m[k++] = 0; m[k++] = (unsigned char)enc;
       if (cr) { m[k++] = 0; m[k++] = 0; m[k++] = 0; m[k++] = 1; }                   /* CopyRect */
+      if (shape) { m[k++] = 0xFF; m[k++] = 0xFF; m[k++] = 0xFF; m[k++] = 0x11; }    /* RichCursor -239 */
       if (h->nfs) { m[k++] = 0xFF; m[k++] = 0xFF; m[k++] = 0xFF; m[k++] = 0x21; } /* NewFBSize -223 */
       vh_send(&h->c, m, k);
       resize_pic(h, SW, SH);
@@ -410,6 +421,14 @@ int main(void) {
       if (!is_live(i)) { puts("bad-op"); continue; }
       printf("cl %d %dx%d%s\n", i, cls[i].c.cl->scaledScreen->width, cls[i].c.cl->scaledScreen->height,
              cls[i].c.cl->scaledScreen == scr ? " self" : "");
+    } else if (!strcmp(tok[0], "cursor") && n == 1) {
+      int i, any = 0;
+      static char cur[] = "xxxxxxx" "x     x" "x xxx x" "x x x x" "x xxx x" "x     x" "xxxxxxx";
+      static char msk[] = "xxxxxxx" "xxxxxxx" "xxxxxxx" "xxxxxxx" "xxxxxxx" "xxxxxxx" "xxxxxxx";
+      for (i = 0; i < MAXC; i++) if (cls[i].used) any = 1;
+      if (any || MAPPED || scr->cursor || SW < 16 || SH < 16) { puts("bad-op"); continue; }
+      scr->cursor = rfbMakeXCursor(7, 7, cur, msk);
+      puts("ok");
     } else if (!strcmp(tok[0], "newfb") && n == 4) {
       int w = atoi(tok[1]), ht = atoi(tok[2]), xx, yy; char *nfb, *old = scr->frameBuffer;
       uint32_t mask = BPP == 4 ? 0xFFFFFFFFu : BPP == 3 ? 0xFFFFFFu : BPP == 2 ? 0xFFFFu : 0xFFu;
